@@ -143,6 +143,104 @@ def _public_attrs(prog: Program, fam: List[ClassInfo]) -> Set[str]:
     return pub
 
 
+def _equality_gaps(fam, closures, state_reads):
+    """functools caches key `self` by __hash__ / __eq__.  Identity (the default) is a complete
+    key; a class of the family that defines value equality makes two objects share entries, so
+    the equality must cover everything the memoised method reads.
+    [(class, attributes compared, attributes read but not compared, method names)]"""
+    out = []
+    method_names = {m_ for c2 in fam for m_ in c2.methods}
+    for c in fam:
+        eq = [c.methods[m_] for m_ in ("__eq__", "__hash__") if m_ in c.methods]
+        if not eq:
+            continue
+        covered: Set[str] = set()
+        work2 = list(eq)
+        seen2: Set[str] = set()
+        while work2:
+            eu_ = work2.pop()
+            if eu_.qual in seen2:
+                continue
+            seen2.add(eu_.qual)
+            for a_ in _self_reads(eu_.node):
+                covered.add(a_)
+            for x in ast.walk(eu_.node):          # self._parameters(), other._parameters()
+                if isinstance(x, ast.Attribute) and isinstance(x.value, ast.Name):
+                    for c2 in fam:
+                        if x.attr in c2.methods and c2.methods[x.attr].qual not in seen2:
+                            work2.append(c2.methods[x.attr])
+        # closures stored on self are derived values: what they read is in state_reads too
+        uncovered = sorted(a_ for a_ in state_reads if a_ not in covered
+                           and a_ not in method_names and a_ not in closures
+                           and not a_.startswith("__"))
+        out.append((c, covered, uncovered, method_names))
+    return out
+
+
+def _equality_text(c, covered, uncovered, method_names) -> str:
+    if not uncovered:
+        return f"equality covers everything the method reads ({sorted(covered)[:6]})"
+    return (f"{c.name} compares / hashes by {sorted(a_ for a_ in covered if a_ not in method_names)} "
+            f"but the memoised method also reads {uncovered}: two objects that agree in the "
+            f"compared attributes and differ in {uncovered[0]} are the same cache key - the second "
+            f"one is served the first one's results")
+
+
+def memoised_state_reads(prog: Program):
+    """[(class, method name, unit, family, closures, state reads)] for every lru_cache'd method."""
+    out = []
+    for ci in prog.classes.values():
+        for mname, mu in ci.methods.items():
+            if not any(k in norm(d) for d in mu.node.decorator_list
+                       for k in ("lru_cache", "functools.cache", "cached_property", "memoize",
+                                 "cache(")) and \
+                    not any(norm(d) == "cache" for d in mu.node.decorator_list):
+                continue
+            fam = _family(prog, ci)
+            closures = _closure_attrs(prog, fam)
+            reads: Set[str] = set()
+            seen: Set[Tuple[str, str]] = set()
+            work = [("m", mname)]
+            while work:
+                kind, name = work.pop()
+                if (kind, name) in seen:
+                    continue
+                seen.add((kind, name))
+                bodies: List[ast.AST] = []
+                if kind == "m":
+                    for c in fam:
+                        if name in c.methods:
+                            bodies.append(c.methods[name].node)
+                else:
+                    bodies += [cl for (_, cl) in closures.get(name, [])]
+                for b in bodies:
+                    for a in _self_reads(b):
+                        reads.add(a)
+                        if any(a in c.methods for c in fam):
+                            work.append(("m", a))
+                        if a in closures:
+                            work.append(("c", a))
+            state_reads = {a for a in reads if not any(a in c.methods and
+                                                       not any("property" in norm(d) for d in
+                                                               c.methods[a].node.decorator_list)
+                                                       for c in fam)}
+            out.append((ci, mname, mu, fam, closures, state_reads))
+    return out
+
+
+def cache_equality_findings(prog: Program, modules: Optional[Set[str]] = None):
+    """[(unit, construct, ok, detail)]: lru_cache'd methods of classes whose family defines
+    value equality."""
+    out = []
+    for (ci, mname, mu, fam, closures, state_reads) in memoised_state_reads(prog):
+        if modules is not None and ci.module.short not in modules:
+            continue
+        for (c, covered, uncovered, method_names) in _equality_gaps(fam, closures, state_reads):
+            out.append((mu, f"lru_cache on {ci.name}.{mname} vs value equality of {c.name}",
+                        not uncovered, _equality_text(c, covered, uncovered, method_names)))
+    return out
+
+
 # --------------------------------------------------------------------- A1
 def a1(prog: Program, chk: Check) -> None:
     chk.rule("A1", "a method memoised with lru_cache (key = self identity + arguments) must not "
@@ -210,6 +308,11 @@ def a1(prog: Program, chk: Check) -> None:
                         f"{mutated[hit[0]]}() changes self.{hit[0]} after results computed from it "
                         f"were memoised under (self, arguments): the object answers according to "
                         f"its history, an equal freshly built one does not",
+                        function=f"{ci.name}.{mname}")
+            for (c, covered, uncovered, method_names) in _equality_gaps(fam, closures, state_reads):
+                chk.saw(mu)
+                chk.add("A1", mu, f"lru_cache on {ci.name}.{mname} vs value equality of {c.name}",
+                        not uncovered, _equality_text(c, covered, uncovered, method_names),
                         function=f"{ci.name}.{mname}")
             construct = f"lru_cache reads public attributes {stale}" if stale else \
                 "lru_cache reads only private, setter-less attributes"
